@@ -54,6 +54,16 @@ class _OracleModel:
             return A
         if dotted(t) == "self.reuse_gradient":
             return R
+        if isinstance(t, ast.Name) and t.id in self.lists:
+            empty = {self.lists[1]: NG, self.lists[2]: NV, self.lists[0]: None}[t.id]
+            if empty is None:
+                raise AnalysisError("oracle branches on the 'need nothing' list")
+            return not empty          # truthiness of a list = non-empty
+        if isinstance(t, ast.Compare) and len(t.ops) == 1 and isinstance(t.left, ast.Call) and call_name(t.left) == "len" and t.left.args \
+                and isinstance(t.left.args[0], ast.Name) and t.left.args[0].id in self.lists and is_const(t.comparators[0], 0):
+            empty = {self.lists[1]: NG, self.lists[2]: NV, self.lists[0]: None}[t.left.args[0].id]
+            if empty is not None and isinstance(t.ops[0], (ast.Eq, ast.Gt, ast.NotEq)):
+                return empty if isinstance(t.ops[0], ast.Eq) else not empty
         if isinstance(t, ast.Compare) and len(t.ops) == 1:
             l, op, r = t.left, t.ops[0], t.comparators[0]
             if isinstance(l, ast.Name) and l.id == self.lookup and isinstance(r, ast.Constant) and r.value is None:
